@@ -222,11 +222,11 @@ func extractPratt(p *Program) *prattModel {
 				base = w
 			}
 		}
-		call, _ := callOf(base)
-		if call == nil || !staticCalleeIs(call, "(*lang.Parser).rule") {
+		key, okKey := ruleLookupKey(base)
+		if !okKey {
 			return false
 		}
-		return derivesFrom(call.Call.Args[1], func(x ssa.Value) bool {
+		return derivesFrom(key, func(x ssa.Value) bool {
 			lf, ok := loadedField(x)
 			return ok && lf.Is("Parser", "current")
 		}, 0)
@@ -365,14 +365,14 @@ func (m *prattModel) extractRbp(p *Program, f *ssa.Function) rbp {
 	if !ok || !sf.Is("parseRule", "prec") {
 		return rbp{Kind: rbpNone, Call: call, Why: "UNDECIDED: the minimum precedence passed is not a constant or own-precedence expression"}
 	}
-	rc, _ := callOf(sf.Base)
-	if rc == nil || !staticCalleeIs(rc, "(*lang.Parser).rule") {
+	ruleKey, okKey := ruleLookupKey(sf.Base)
+	if !okKey {
 		return rbp{Kind: rbpNone, Call: call, Why: "UNDECIDED: precedence not obtained from Parser.rule"}
 	}
 	// the tag must come from *p.previous (the operator just consumed), and an advance/consume
 	// must precede
 	viaHelper := false
-	fromPrev := derivesFromLocal(rc.Call.Args[1], func(x ssa.Value) bool {
+	fromPrev := derivesFromLocal(ruleKey, func(x ssa.Value) bool {
 		lf, ok := loadedField(x)
 		if ok && lf.Is("Parser", "previous") {
 			return true
@@ -527,4 +527,26 @@ func isConsumedTokenHelper(h *ssa.Function) bool {
 		}
 	}
 	return n > 0
+}
+
+// ruleLookupKey: v is the operator-table entry of a token tag — the result of Parser.rule(tag), or the
+// table read directly (`p.rules[tag]`: a missing key yields the zero entry, which is what rule()
+// returns for it). The tag is returned.
+func ruleLookupKey(v ssa.Value) (ssa.Value, bool) {
+	if ex, ok := v.(*ssa.Extract); ok && ex.Index == 0 {
+		if lk, ok := ex.Tuple.(*ssa.Lookup); ok {
+			v = lk
+		}
+	}
+	if lk, ok := v.(*ssa.Lookup); ok {
+		if sf, ok := loadedField(lk.X); ok && sf.Is("Parser", "rules") {
+			return lk.Index, true
+		}
+		return nil, false
+	}
+	call, _ := callOf(v)
+	if call != nil && staticCalleeIs(call, "(*lang.Parser).rule") && len(call.Call.Args) > 1 {
+		return call.Call.Args[1], true
+	}
+	return nil, false
 }
